@@ -38,7 +38,7 @@ META = {
     "rule": "an execution is (configuration, choice sequence); distinct = distinct pair; non-trivial = at least two streams were concurrently open at mitmproxy or a stream had to wait for capacity / flow-control window",
     "assumptions": [
         "hooks complete immediately (held hooks: C11); connection loss / GOAWAY is not in the alphabet (the statement quantifies over frames, resets, window updates and settings)",
-        "the server peer answers a request only after it has received it completely (RST may come any time after the head)",
+        "the server peer answers a request only after it has received it completely (RST may come any time after the head); in `early` configurations (streamed request bodies) it may answer and end its side as soon as it has the request head, while the client is still sending the body",
         "bytes between mitmproxy and a peer are delivered in order without loss; segmentation modes: whole writes, halves, single bytes, coalesced writes",
         "H2->H1 variant: request bodies carry content-length and no trailers (HTTP/1 translation of other messages is C06's subject)",
     ],
@@ -122,6 +122,7 @@ DEFAULT_CFG = {
     "seg": "whole",      # whole | mid | bytes | coalesce
     "sset": "imm",       # imm | late : when the server's connection preface (first SETTINGS) is delivered
     "connect": "auto",   # auto | manual
+    "early": False,      # may the server answer (and end / reset) before the streamed request body is complete?
 }
 
 
@@ -140,7 +141,7 @@ def cfg_features(cfg):
     return {
         "up": cfg["up"], "n": len(cfg["cs"]), "limit": cfg["limit"] if cfg["limit"] is not None else "default",
         "lower": cfg["lower"] is not None, "stream": cfg["stream"], "win": cfg["win"] is not None, "seg": cfg["seg"],
-        "resets": "+".join(kinds) or "-", "sset": cfg["sset"], "connect": cfg["connect"],
+        "resets": "+".join(kinds) or "-", "sset": cfg["sset"], "connect": cfg["connect"], "early": bool(cfg.get("early")),
         "trailers": any(s == "pt" for s in cfg["cs"]) or any(s == "dt" for s in cfg["ss"]),
     }
 
@@ -427,7 +428,7 @@ class Sys:
         if a[0] == "R":
             s = u.peer.conn.streams.get(sid)
             return s is not None and not s.closed
-        if not st["ended"]:
+        if not st["ended"] and not self.cfg.get("early"):
             return False
         if not u.peer.can_send(sid):
             return False
@@ -735,6 +736,7 @@ def judge(s: Sys, choices, t: Tally, verbose=False):
     up_problems = []
     up_markers = []
     reset_up = []
+    up_complete = {}  # marker -> did the forwarded request arrive completely (END_STREAM seen, whole body, trailers)?
     if up == "h2":
         for u in s.ups:
             p = u.peer
@@ -743,6 +745,7 @@ def judge(s: Sys, choices, t: Tally, verbose=False):
                 hd = dict(st["headers"])
                 m = hd.get(b":path", b"/?")[1:]
                 up_markers.append(m)
+                up_complete[m] = {"ended": st["ended"], "reset": st["reset"], "body": b"".join(st["data"])}
                 mi = int(m[1:]) - 1 if m[:1] == b"m" and m[1:].isdigit() and int(m[1:]) <= n else None
                 if mi is None:
                     up_problems.append(("unknown marker", m))
@@ -847,6 +850,12 @@ def judge(s: Sys, choices, t: Tally, verbose=False):
             t.judge("none_lost_none_duplicated", ok, f2, case, "undisturbed stream %d completes with its full response" % sid,
                     {"outcome": kind, "stream": st})
             t.judge("none_lost_upstream", up_markers.count(m) == 1, f2, case, "request %r forwarded exactly once" % m, up_markers)
+            if up == "h2" and m in up_complete:
+                # every frame of an undisturbed request reaches its own server stream, also the part of a streamed
+                # body the client sends after the server has already answered
+                uc = up_complete[m]
+                t.judge("forwarded_request_complete", uc["ended"] and uc["reset"] is None and uc["body"] == req_body(m, cs), f2, case,
+                        "request %r arrives completely (body %r, END_STREAM) on its server stream" % (m, req_body(m, cs)), uc)
         elif sreset and not creset:
             # the server's reset must surface on this stream as a reset or as mitmproxy's own error response
             t.judge("reset_on_request_stream", kind in ("reset", "error_response"), f2, case,
@@ -927,6 +936,16 @@ def specs(tier):
             add(b(2, FULL),cs=cs, ss=ss, limit=limit, stream=stream, seg=seg)
     add(b(3, FULL),cs=["g", "g", "g"], ss=["h", "h", "h"], limit=2, seg="coalesce")
     add(b(3, FULL),cs=["p1", "p1", "p1"], ss=["d1", "d1", "d1"], limit=1, seg="coalesce", stream="req")
+    # 6b. early responses: the server answers (and ends or resets its side) while a streamed request body is still on its way
+    for cs, ss in [(["p2", "p1"], ["h", "d1"]), (["p2", "p2"], ["d1", "h"]), (["pt", "p1"], ["dt", "d1"]), (["p2", "p1"], ["x1", "d1"]),
+                   (["pe", "p2"], ["d2", "x0"])]:
+        for limit in (None, 1):
+            for stream in ("req", "both"):
+                add(b(2, FULL), cs=cs, ss=ss, limit=limit, stream=stream, early=True)
+    add(b(2, 4), cs=["p2", "p2", "g"], ss=["h", "d1", "h"], limit=1, stream="req", early=True)
+    add(b(2, 4), cs=["p2", "p1", "p2"], ss=["h", "h", "d1"], limit=2, stream="both", early=True)
+    add(b(2, 3), cs=["p2", "p2"], ss=["h", "d1"], limit=1, stream="req", early=True, seg="coalesce")
+    add(b(2, 3), cs=["p2", "p2"], ss=["d1", "h"], stream="both", early=True, win=4)
     # 7. HTTP/1 upstream: one connection per stream
     h1s = [(["p1", "p1"], ["d1", "d1"]), (["g", "p2"], ["ch", "eof"]), (["p1", "g"], ["x0", "d2"]), (["r1", "p1"], ["d1", "d1"]),
            (["rA", "g"], ["d2", "x1"])]
